@@ -622,7 +622,10 @@ def model_scenario(sid, rec, lang, kind, builtin=False, pairidx=None):
     docs = bool(int(rec.get("docs", 0)))
     pair = None
     if int(rec.get("conf", 0)) and not stem:
-        pair = CONF_PAIRS[(sid if pairidx is None else pairidx) % len(CONF_PAIRS)]
+        # the generators go through the namespace tree, the model through the listed order: a history whose files are compared one by
+        # one with the model's (kind "model") keeps both names in the root namespace
+        pool = [p for p in CONF_PAIRS if "/" not in conf_path(p[0]) + conf_path(p[1])] if kind == "model" else CONF_PAIRS
+        pair = pool[(sid if pairidx is None else pairidx) % len(pool)]
         if conf_stem(pair[0]) > conf_stem(pair[1]):
             pair = (pair[1], pair[0])  # the model lists the includes of type 3 by type number, the generators by path
     shape["der"] = bool(pair)
